@@ -11,7 +11,7 @@ Definition air : medium (O:=ROps) := MIdeal (O:=ROps) 1 0.
 Definition vg := cget (O:=ROps) gnR.
 Definition vs := cset (O:=ROps).
 Definition up := cupd (O:=ROps) gnR.
-Ltac norm H := cbv -[Rplus Rminus Rmult Rdiv Ropp IZR Rinv] in H.
+Ltac norm H := cbv -[ROps R R0 R1 Rplus Rminus Rmult Rdiv Ropp IZR Rinv] in H.
 Definition draw0 (g : unit) (_ : unit) : option (R * unit) := Some (0, g).
 
 (** D15: MonteCarlo.run leaves the lens at the last trial (no final reset).
@@ -19,12 +19,13 @@ Definition draw0 (g : unit) (_ : unit) : option (R * unit) := Some (0, g).
 Definition lA : clens (O:=ROps) := mkL (O:=ROps) [S GPlane 0 (-100) air; S GStd 60 0 (MIdeal (O:=ROps) 1.5 0); S GStd (-60) 5 air; S GPlane 0 95 air] [].
 Definition hA : handle (O:=ROps) := mkH (O:=ROps) HRadius 1 0 0 false.
 Theorem montecarlo_ends_nominal_refuted :
-  exists s', mc_run (O:=ROps) vg vs up (fun _ => []) draw0
-                    (map (mkvar vg lA) [hA]) [] [[]] (mkSt lA [SScalar (O:=ROps) unit 65] tt) = Some (s', [mkRow (O:=ROps) [0%nat] [65] [] []])
-             /\ lens s' <> lA.
+  match mc_run (O:=ROps) vg vs up (fun _ => []) draw0
+               (map (mkvar vg lA) [hA]) [] [[]] (mkSt lA [SScalar (O:=ROps) unit 65] tt) with
+  | Some (s', rows) => length rows = 1%nat /\ lens s' <> lA
+  | None => False end.
 Proof.
-  eexists. split. { reflexivity. }
-  intro Heq. norm Heq. inversion Heq. lra.
+  cbv -[ROps R R0 R1 Rplus Rminus Rmult Rdiv Ropp IZR Rinv not]. split; [reflexivity|].
+  intro Heq. inversion Heq. rops. lra.
 Qed.
 
 (** plane-radius-reset: a radius perturbation on a flat surface: reset() writes radius = inf into a
@@ -44,7 +45,7 @@ Theorem reset_index_material_refuted :
 Proof.
   split.
   - intro Heq. norm Heq. discriminate Heq.
-  - intro Heq. norm Heq. lra.
+  - intro Heq. norm Heq. rops. lra.
 Qed.
 
 (** reset-skips-update: with a pickup and a compensator, Optic.update() (called by the optimiser) moves the pickup
@@ -53,12 +54,12 @@ Qed.
 Definition lD : clens (O:=ROps) := mkL (O:=ROps) (surfs lA) [mkP (O:=ROps) 1 PRadius 2 (-1) 0].
 Definition hD : handle (O:=ROps) := mkH (O:=ROps) HConic 2 0 0 true.
 Theorem sensitivity_ends_nominal_pickup_refuted :
-  exists s' rows,
-    sens_run (O:=ROps) vg vs up (fun _ => []) draw0
-             (map (mkvar vg lD) [hA]) (map (mkvar vg lD) [hD]) [[[0]]]
-             (mkSt lD [SRange (O:=ROps) unit [65] 0] tt) = Some (s', rows)
-    /\ lens s' <> lD.
+  match sens_run (O:=ROps) vg vs up (fun _ => []) draw0
+                 (map (mkvar vg lD) [hA]) (map (mkvar vg lD) [hD]) [[[0]]]
+                 (mkSt lD [SRange (O:=ROps) unit [65] 0] tt) with
+  | Some (s', rows) => length rows = 1%nat /\ lens s' <> lD
+  | None => False end.
 Proof.
-  eexists. eexists. split. { reflexivity. }
-  intro Heq. norm Heq. inversion Heq. lra.
+  cbv -[ROps R R0 R1 Rplus Rminus Rmult Rdiv Ropp IZR Rinv not]. split; [reflexivity|].
+  intro Heq. inversion Heq. rops. lra.
 Qed.
